@@ -26,6 +26,7 @@ REPO = os.environ.get('VERIF_REPO', '/repo')
 from . import tlc                      # noqa: E402
 from .tlc import MachineryError        # noqa: E402
 
+SCRATCH_RUN = os.path.realpath(REPO) != '/repo'
 DRIVERS = {f'C{n:02d}': f'harness.drivers.c{n:02d}' for n in range(1, 21)}
 
 
@@ -116,7 +117,7 @@ def load_findings() -> list:
 
 
 def write_replay(prop: str, payload: dict) -> str:
-    d = os.path.join(VERIF, 'replays', prop)
+    d = os.path.join(VERIF if not SCRATCH_RUN else '/tmp/edzverif-scratch', 'replays', prop)
     os.makedirs(d, exist_ok=True)
     path = os.path.join(d, sha(payload.get('stim', payload)) + '.json')
     with open(path, 'w') as f:
@@ -125,6 +126,8 @@ def write_replay(prop: str, payload: dict) -> str:
 
 
 def write_evidence(prop: str, ev: dict) -> None:
+    if SCRATCH_RUN:         # development runs against a scratch copy never touch the evidence
+        return
     d = os.path.join(VERIF, 'evidence')
     os.makedirs(d, exist_ok=True)
     with open(os.path.join(d, f'{prop}.json'), 'w') as f:
